@@ -40,7 +40,7 @@ def run_case_shards(ctx, shards, jobs=16, gen_timeout=600, coq_timeout=900):
     (sequentially: cheap), evaluates them with coqc in parallel.  Returns (stats, results) where results is a
     list of (shard, ok, text) and stats the merged generator statistics (incl. roundtrip/name failures)."""
     stats = {'cases': 0}
-    fails = {'roundtrip_failures': [], 'name_failures': []}
+    fails = {'roundtrip_failures': [], 'name_failures': [], 'load_panics': []}
     files = []
     samples = []
     hashes = set()
@@ -62,7 +62,7 @@ def run_case_shards(ctx, shards, jobs=16, gen_timeout=600, coq_timeout=900):
                 fails[k].append(f)
         samples += st.get('samples') or []
         hashes.update(st.get('hashes') or [])
-        merge_counts(stats, {k: v for k, v in st.items() if k not in ('roundtrip_failures', 'name_failures', 'samples', 'hashes', 'distinct_nontrivial')})
+        merge_counts(stats, {k: v for k, v in st.items() if k not in ('roundtrip_failures', 'name_failures', 'load_panics', 'samples', 'hashes', 'distinct_nontrivial')})
         files.append((sh, vfile))
 
     def ev(item):
@@ -101,6 +101,9 @@ def report_shards(ctx, stats, results, what):
         ctx.fail_input(sig, f'saved fail file does not load back: {f.get("what")} (input class {f.get("class")}, longest output line {maxline} bytes)',
                        {'cmd': BUILD_CMD + f.get('replay', ''), 'expected': 'loadFailFile(saveFailFile(x)) = x', 'observed': f.get('what'),
                         'case': f, 'regenerate': regen_cmd(f['shard'])})
+    for f in stats.get('load_panics') or []:
+        ctx.fail_input('loadFailFile panics', f'an unusable fail file crashes the loader instead of being ignored: {f.get("what")}',
+                       {'cmd': regen_cmd(f['shard']), 'case': f})
     for f in stats.get('name_failures') or []:
         ctx.fail_input(f'name {f.get("what", "")[:80]}', f'fail-file name/pattern defect: {f.get("what")}',
                        {'cmd': regen_cmd(f['shard']), 'case': f})
